@@ -47,8 +47,21 @@ func runC39(c *Ctx) {
 				if ia, isIA := in.(*ssa.IndexAddr); isIA && ssau.DependsOn(ia.Index, func(y ssa.Value) bool { return y == idx }) && ssau.DependsOn(ia.X, func(y ssa.Value) bool { return ssau.IsFieldOf(y, "FilterLoad", "Filter") }) {
 					byteIdx = canonExpr(ia.Index, k, 0)
 				}
-				if sh, isSh := in.(*ssa.BinOp); isSh && sh.Op == token.SHL && isConstInt(1)(sh.X) && ssau.DependsOn(sh.Y, func(y ssa.Value) bool { return y == idx }) {
-					mask = canonExpr(sh, k, 0)
+				// the mask is what is AND-ed (matches) or OR-ed (add) with the addressed filter byte
+				if bo, isBo := in.(*ssa.BinOp); isBo && (bo.Op == token.AND || bo.Op == token.OR) && ssau.DependsOn(bo, func(y ssa.Value) bool { return y == idx }) {
+					isByte := func(v ssa.Value) bool {
+						u, ok := v.(*ssa.UnOp)
+						if !ok || u.Op != token.MUL {
+							return false
+						}
+						ia, ok := u.X.(*ssa.IndexAddr)
+						return ok && ssau.DependsOn(ia.X, func(y ssa.Value) bool { return ssau.IsFieldOf(y, "FilterLoad", "Filter") })
+					}
+					if isByte(bo.X) {
+						mask = canonExpr(bo.Y, k, 0)
+					} else if isByte(bo.Y) {
+						mask = canonExpr(bo.X, k, 0)
+					}
 				}
 			}
 		}
@@ -148,6 +161,21 @@ func runC39(c *Ctx) {
 		}
 		return nil
 	}
+	// reachFalse: can ret be reached under cut on a path where its (non-constant) result may be false? Arms on which
+	// the returned variable itself was tested true are excluded.
+	reachFalse := func(from *ssa.BasicBlock, cut *ssau.Cut, ret *ssa.Return) bool {
+		cc := cut.Clone()
+		v := ret.Results[0]
+		if _, isC := v.(*ssa.Const); !isC {
+			for _, i := range ssau.Ifs(f) {
+				x, neg := ssau.StripNot(i.Cond)
+				if x == v {
+					cc.AddEdge(i.Block(), ssau.Arm(i, !neg))
+				}
+			}
+		}
+		return ssau.ReachFromBlock(f, from, cc).Instr(ret)
+	}
 	falseRets := func(r *ssau.Reach) []*ssa.Return {
 		var out []*ssa.Return
 		for _, ret := range ssau.Returns(f) {
@@ -172,10 +200,9 @@ func runC39(c *Ctx) {
 				cut.AddEdge(i.Block(), ssau.Arm(i, false)) // empty filter
 			}
 		}
-		r := ssau.ReachFromBlock(f, ssau.Arm(sel, true), cut)
 		bad := ""
 		for _, ret := range falseRets(sr) {
-			if r.Instr(ret) {
+			if reachFalse(ssau.Arm(sel, true), cut, ret) {
 				bad = c.posOf(ret)
 			}
 		}
@@ -224,10 +251,9 @@ func runC39(c *Ctx) {
 		cut := ssau.NewCut()
 		cut.AddEdge(sel.Block(), ssau.Arm(sel, true))
 		cut.AddEdge(li.Block(), ssau.Arm(li, false))
-		r := ssau.ReachFromBlock(f, ssau.Arm(sel, false), cut)
 		bad := ""
 		for _, ret := range falseRets(nr) {
-			if r.Instr(ret) {
+			if reachFalse(ssau.Arm(sel, false), cut, ret) {
 				bad = c.posOf(ret)
 			}
 		}
